@@ -66,6 +66,9 @@ func ParseReadServerIDRequestTCP(data []byte) (*ReadServerIDRequestTCP, error) {
 	if err != nil {
 		return nil, err
 	}
+	if tooShort := checkTCPRequestLength(header, data, FunctionReadServerID, 8); tooShort != nil {
+		return nil, tooShort
+	}
 	unitID := data[6]
 	if data[7] != FunctionReadServerID {
 		tmpErr := NewErrorParseTCP(ErrIllegalFunction, "received function code in packet is not 0x11")
